@@ -110,4 +110,45 @@ theorem advance_bounds (cfg : Cfg) (st : St) (lat : Nat) (pend : Option Nat) (h 
   generalize listenNext cfg quiet = b
   cases b <;> cases pend <;> simp only [Bool.false_eq_true, if_false, if_true] <;> (try split) <;> omega
 
+/-! ### acceptance of timing parameters -/
+
+theorem centralSca_le (sca : Nat) : centralSca sca ≤ 500 := by
+  unfold centralSca
+  split <;> omega
+
+/-- `check_timing_paremeters` never fails an assertion and accepts exactly these parameters -/
+theorem checkTiming_spec (p : Tp) :
+    checkTiming p = some (decide (7500 ≤ p.interval ∧ p.interval ≤ 4000000 ∧ p.winSize ≠ 0 ∧ p.winSize ≤ 10000
+      ∧ p.winSize ≤ p.interval ∧ 100000 ≤ p.timeoutUs ∧ p.timeoutUs ≤ 32000000 ∧ p.latency ≤ 499
+      ∧ p.interval * ((p.latency + 1) * 2) < p.timeoutUs)) := by
+  unfold checkTiming
+  by_cases h : 7500 ≤ p.interval ∧ p.interval ≤ 4000000 ∧ p.winSize ≠ 0 ∧ p.winSize ≤ 10000
+      ∧ p.winSize ≤ p.interval ∧ 100000 ≤ p.timeoutUs ∧ p.timeoutUs ≤ 32000000 ∧ p.latency ≤ 499
+  · rw [if_pos h]
+    have hm : p.interval * ((p.latency + 1) * 2) ≤ 4000000 * 1000 :=
+      Nat.mul_le_mul h.2.1 (by omega)
+    rw [dtMul_small (by omega)]
+    simp only [Option.map_some, gt_iff_lt]
+    by_cases hx : p.interval * ((p.latency + 1) * 2) < p.timeoutUs
+    · simp [h, hx]
+    · simp [hx]
+  · rw [if_neg h]
+    have : ¬ (7500 ≤ p.interval ∧ p.interval ≤ 4000000 ∧ p.winSize ≠ 0 ∧ p.winSize ≤ 10000
+      ∧ p.winSize ≤ p.interval ∧ 100000 ≤ p.timeoutUs ∧ p.timeoutUs ≤ 32000000 ∧ p.latency ≤ 499
+      ∧ p.interval * ((p.latency + 1) * 2) < p.timeoutUs) := by
+      intro hh; apply h
+      exact ⟨hh.1, hh.2.1, hh.2.2.1, hh.2.2.2.1, hh.2.2.2.2.1, hh.2.2.2.2.2.1, hh.2.2.2.2.2.2.1, hh.2.2.2.2.2.2.2.1⟩
+    simp [this]
+
+theorem setupNext_some {s s' : LL} (h : setupNext s = some s') :
+    ∃ a b, window s.timeSince s.tp.winSize s.tp.winOffset s.sca = some (a, b)
+      ∧ s' = { s with win := (a, b, s.tp.interval) } := by
+  unfold setupNext at h
+  cases hw : window s.timeSince s.tp.winSize s.tp.winOffset s.sca with
+  | none => rw [hw] at h; simp at h
+  | some w =>
+      rw [hw] at h
+      simp only [Option.bind_eq_bind, Option.bind_some, Option.some.injEq] at h
+      exact ⟨w.1, w.2, rfl, h.symm⟩
+
 end BluetoeModel.Timing
